@@ -223,6 +223,7 @@ class Built:
         sl = self.case["srclists"][sli]
 
         def cb(**kw):
+            C.check_timeout()
             ids = []
             for j, s in enumerate(sl["srcs"]):
                 v = kw["k%d" % j]
@@ -243,6 +244,7 @@ class Built:
 
     def _callback(self, fi):
         def cb(*args, **kw):
+            C.check_timeout()
             sli = self.stack[-1]
             sl = self.case["srclists"][sli]
             n = len(sl["srcs"])
